@@ -133,6 +133,10 @@ def build_tree(root: Path, call) -> Path:
     parent = root / "p"
     ts = call["ts"]
     target = parent / f"target.{call['fmt']}"
+    if ts in ("emptydir", "nonemptydir", "subdironly") and not call["infer"] and (call["fn"] == "save_result" or call.get("n", 0) % 2):
+        # a folder is usually named without an extension (save_result(result, "results/run1", format_name="yml")): every second call with a
+        # given format uses such a name
+        target = parent / "target_folder"
     if ts != "noparent":
         parent.mkdir()
         (parent / "keep2.me").write_bytes(b"unrelated file next to the target\n")
@@ -181,7 +185,7 @@ def execute_case(chk: Check, case, base: Path, n: int, stats: Counter | None = N
     call = case["call"]
     allowed = {tuple(a) for a in case["allowed"]}
     root = base / f"case{n}"
-    target = build_tree(root, call)
+    target = build_tree(root, {**call, "n": n})
     before = snapshot(root)
     obj = objects("save")[OBJ_OF[call["fn"]]]
     PLUGIN_CALLS.clear()
